@@ -237,7 +237,11 @@ struct HashRun {
 		if ((int)slots.size() <= d) slots.resize(d + 1);
 		Slot& sl = slots[d];
 		sl.it = it; sl.cell = Ad::sit(it).mContainerVersion; sl.kind = kindOf(it); sl.born = mods.serial;
+		lastStored = d;
 	}
+	int lastStored = -1;
+	// a handle returned by a mutating entry point is made after the modification
+	void restamp() { if (lastStored >= 0) slots[lastStored].born = mods.serial; }
 	struct Snap {
 		std::vector<uint32_t> k[2]; size_t cap[2]; const void* cell[2];
 		bool operator==(const Snap& o) const { return k[0] == o.k[0] && k[1] == o.k[1] && cap[0] == o.cap[0] && cap[1] == o.cap[1] && cell[0] == o.cell[0] && cell[1] == o.cell[1]; }
@@ -329,8 +333,9 @@ struct HashRun {
 		if (full) Ad::fillExt(*ext[o], k); else ext[o]->Clear();
 		Snap before = snap();
 		std::string res;
+		lastStored = -1;
 		std::string ex = guard([&] { auto r = Ad::insertExt(O(o), *ext[o]); store(d, It(r.first)); res = fmt("ok %d ", (int)r.second) + desc(It(r.first)); });
-		if (ex.empty()) note(before, true, 1 << o);
+		if (ex.empty()) { note(before, true, 1 << o); restamp(); }
 		std::string opline = fmt("insx %c %d %u %zu %d", on(o), (int)full, k, O(o).GetCapacity(), d);
 		j.mut(full ? "Insert(extracted item)" : "Insert(empty extracted item)");
 		j.line(opline, (ex.empty() ? res : ex) + tail());
@@ -359,9 +364,10 @@ struct HashRun {
 		bool stale = sl.kind != H_NULL && mods.stale(sl.cell, sl.born);
 		bool touched = sl.kind != H_NULL && mods.touched(sl.cell, sl.born);
 		std::string res;
+		lastStored = -1;
 		std::string ex = guard([&] { res = call(); });
 		Snap after = snap();
-		if (mutating && ex.empty() && bumps) note(before, true, target >= 0 ? (1 << target) : 0);
+		if (mutating && ex.empty() && bumps) { note(before, true, target >= 0 ? (1 << target) : 0); restamp(); }
 		std::string opline = mkline(ex.empty());
 		j.line(opline, (ex.empty() ? res : ex) + tail());
 		int must; std::string why;
@@ -610,6 +616,1136 @@ static void runHash(Ctx& c, Rng& rng, const std::string& suite, const std::strin
 }
 #endif
 
+// ============================================================================================================
+#if VF_PART == 2
+// ---------------------------------------------------------------- TreeSet / TreeMap
+
+struct XTSet : public momo::TreeSetSettings {
+	static const momo::CheckMode checkMode = momo::CheckMode::exception;
+	static const momo::ExtraCheckMode extraCheckMode = momo::ExtraCheckMode::nothing;
+	static const bool checkVersion = true;
+};
+struct XTMap : public momo::TreeMapSettings {
+	static const momo::CheckMode checkMode = momo::CheckMode::exception;
+	static const momo::ExtraCheckMode extraCheckMode = momo::ExtraCheckMode::nothing;
+	static const bool checkVersion = true;
+};
+
+template<typename Traits>
+struct TSetAd {
+	typedef momo::TreeSet<uint32_t, Traits, MM, momo::TreeSetItemTraits<uint32_t, MM>, XTSet> C;
+	typedef typename C::ConstIterator It;
+	typedef typename C::ExtractedItem Ext;
+	typedef C TS;
+	static const bool multi = Traits::multiKey;
+	static TS& ts(C& c) { return c; }
+	static const typename TS::ConstIterator& sit(const It& it) { return it; }
+	static uint32_t key(const It& it) { return *it; }
+	static std::pair<It, bool> insert(C& c, uint32_t k, int variant) {
+		switch (variant % 4) {
+		case 0: { auto r = c.Insert(k); return { r.position, r.inserted }; }
+		case 1: { uint32_t t = k; auto r = c.Insert(std::move(t)); return { r.position, r.inserted }; }
+		case 2: { auto r = c.InsertVar(k, k); return { r.position, r.inserted }; }
+		default: { auto r = c.InsertCrt(k, [k](uint32_t* p) { *p = k; }); return { r.position, r.inserted }; }
+		}
+	}
+	static std::pair<It, bool> insertExt(C& c, Ext& e) { auto r = c.Insert(std::move(e)); return { r.position, r.inserted }; }
+	static void insertRange(C& c, const std::vector<uint32_t>& ks, int variant) {
+		if (variant % 2 == 1 && ks.size() == 2) c.Insert({ ks[0], ks[1] });
+		else c.Insert(ks.begin(), ks.end());
+	}
+	static It add(C& c, It p, uint32_t k, int variant) {
+		switch (variant % 4) {
+		case 0: return c.Add(p, k);
+		case 1: { uint32_t t = k; return c.Add(p, std::move(t)); }
+		case 2: return c.AddVar(p, k);
+		default: return c.AddCrt(p, [k](uint32_t* q) { *q = k; });
+		}
+	}
+	static It addExt(C& c, It p, Ext& e) { return c.Add(p, std::move(e)); }
+	static It removeExt(C& c, It it, Ext& e) { return c.Remove(it, e); }
+	static void extract(C& c, It p) { Ext x = c.Extract(p); }
+	static size_t removeIf(C& c, uint32_t m, uint32_t r) { return c.Remove([m, r](const uint32_t& x) { return x % m == r; }); }
+	static void fillExt(Ext& e, uint32_t k) { e.Clear(); e.Create([k](uint32_t* q) { *q = k; }); }
+};
+
+template<typename Traits>
+struct TMapAd {
+	typedef momo::TreeMap<uint32_t, uint32_t, Traits, MM, momo::TreeMapKeyValueTraits<uint32_t, uint32_t, MM>, XTMap> C;
+	typedef typename C::ConstIterator It;
+	typedef typename C::ExtractedPair Ext;
+	typedef decltype(C::mTreeSet) TS;
+	static const bool multi = Traits::multiKey;
+	static TS& ts(C& c) { return c.mTreeSet; }
+	static const typename TS::ConstIterator& sit(const It& it) { return it.mTreeSetIterator; }
+	static uint32_t key(const It& it) { return it->key; }
+	static std::pair<It, bool> insert(C& c, uint32_t k, int variant) {
+		switch (variant % 4) {
+		case 0: { auto r = c.Insert(k, k + 1); return { r.position, r.inserted }; }
+		case 1: { uint32_t t = k; auto r = c.Insert(std::move(t), k + 1); return { r.position, r.inserted }; }
+		case 2: { auto r = c.InsertVar(k, k + 1); return { r.position, r.inserted }; }
+		default: { auto r = c.InsertCrt(k, [k](uint32_t* p) { *p = k + 1; }); return { r.position, r.inserted }; }
+		}
+	}
+	static std::pair<It, bool> insertExt(C& c, Ext& e) { auto r = c.Insert(std::move(e)); return { r.position, r.inserted }; }
+	static void insertRange(C& c, const std::vector<uint32_t>& ks, int variant) {
+		std::vector<std::pair<uint32_t, uint32_t>> ps;
+		for (uint32_t k : ks) ps.push_back({ k, k + 1 });
+		if (variant % 2 == 1 && ps.size() == 2) c.Insert({ ps[0], ps[1] });
+		else c.Insert(ps.begin(), ps.end());
+	}
+	static It add(C& c, It p, uint32_t k, int variant) {
+		switch (variant % 3) {
+		case 0: return c.Add(p, k, k + 1);
+		case 1: return c.AddVar(p, k, k + 1);
+		default: return c.AddCrt(p, k, [k](uint32_t* q) { *q = k + 1; });
+		}
+	}
+	static It addExt(C& c, It p, Ext& e) { return c.Add(p, std::move(e)); }
+	static It removeExt(C& c, It it, Ext& e) { return c.Remove(it, e); }
+	static void extract(C& c, It p) { Ext x = c.Extract(p); }
+	static size_t removeIf(C& c, uint32_t m, uint32_t r) { return c.Remove([m, r](const uint32_t& x, const uint32_t&) { return x % m == r; }); }
+	static void fillExt(Ext& e, uint32_t k) { e.Clear(); e.Create([k](uint32_t* q, uint32_t* v) { *q = k; *v = k + 1; }); }
+};
+
+enum { T_ELEM = 0, T_END = 1, T_NULL = 2 };
+static const char* tkName(int k) { return k == T_ELEM ? "element" : k == T_END ? "end" : "null"; }
+
+template<typename Ad>
+struct TreeRun {
+	typedef typename Ad::C C;
+	typedef typename Ad::It It;
+	typedef typename Ad::Ext Ext;
+	Ctx& c; Rng& rng; Suite s; Judge j; Mods mods;
+	std::unique_ptr<C> obj[2];
+	std::unique_ptr<Ext> ext[2];
+	struct Slot { It it; const void* cell = nullptr; int kind = T_NULL; uint64_t born = 0; uint32_t key = 0; size_t rank = 0; };
+	std::vector<Slot> slots;
+	int lastStored = -1;
+
+	TreeRun(Ctx& c_, Rng& r, const std::string& suite, const std::string& cfg)
+		: c(c_), rng(r), s(c_, suite, std::string("model ver fam=tree multi=") + (Ad::multi ? "1" : "0")), j(c_, s, cfg) {}
+
+	C& O(int o) { return *obj[o]; }
+	static char on(int o) { return o ? 'B' : 'A'; }
+	const void* cellOf(int o) { return Ad::ts(O(o)).mCrew.GetVersion(); }
+	std::vector<uint32_t> keys(int o) { std::vector<uint32_t> v; for (auto it = O(o).GetBegin(); it != O(o).GetEnd(); ++it) v.push_back(Ad::key(it)); return v; }
+	std::string flags(int o) { auto& t = Ad::ts(O(o)); return std::string(" r") + (t.mRootNode != nullptr ? "1" : "0") + "p" + (t.mNodeParams != nullptr ? "1" : "0"); }
+	std::string tail() { return " | A=" + listStr(keys(0)) + flags(0) + " B=" + listStr(keys(1)) + flags(1); }
+	// rank of an iterator that was just produced by object o
+	size_t rankIn(int o, const It& it) { size_t r = 0; for (auto x = O(o).GetBegin(); x != O(o).GetEnd() && x != it; ++x) ++r; return r; }
+	int ownerOf(const It& it) { const void* cell = Ad::sit(it).mContainerVersion; return cell == cellOf(1) ? 1 : 0; }
+	std::string desc(const It& it) {
+		if (Ad::sit(it).mNode == nullptr) return "null";
+		return "p" + std::to_string(rankIn(ownerOf(it), it));
+	}
+	void store(int d, const It& it) {
+		if ((int)slots.size() <= d) slots.resize(d + 1);
+		Slot& sl = slots[d];
+		sl.it = it; sl.cell = Ad::sit(it).mContainerVersion; sl.born = mods.serial; lastStored = d;
+		if (Ad::sit(it).mNode == nullptr) { sl.kind = T_NULL; return; }
+		int o = ownerOf(it);
+		sl.rank = rankIn(o, it);
+		sl.kind = it == O(o).GetEnd() ? T_END : T_ELEM;
+		sl.key = sl.kind == T_ELEM ? Ad::key(it) : 0;
+	}
+	void restamp() { if (lastStored >= 0) slots[lastStored].born = mods.serial; }
+	struct Snap {
+		std::vector<uint32_t> k[2]; bool root[2], params[2]; const void* cell[2];
+		bool same(int o, const Snap& x, int p) const { return k[o] == x.k[p] && root[o] == x.root[p] && params[o] == x.params[p]; }
+		bool operator==(const Snap& x) const { return same(0, x, 0) && same(1, x, 1) && cell[0] == x.cell[0] && cell[1] == x.cell[1]; }
+	};
+	Snap snap() {
+		Snap x;
+		for (int o = 0; o < 2; ++o) { x.k[o] = keys(o); x.root[o] = Ad::ts(O(o)).mRootNode != nullptr; x.params[o] = Ad::ts(O(o)).mNodeParams != nullptr; x.cell[o] = cellOf(o); }
+		return x;
+	}
+	void note(const Snap& before) {
+		Snap after = snap();
+		++mods.serial;
+		for (int o = 0; o < 2; ++o) {
+			int p = (after.cell[o] == before.cell[o]) ? o : 1 - o;
+			if (!after.same(o, before, p)) mods.mod[after.cell[o]] = mods.serial;
+		}
+	}
+	void newScenario() {
+		slots.clear(); mods.clear();
+		ext[0].reset(); ext[1].reset(); obj[0].reset(); obj[1].reset();
+		obj[0].reset(new C()); obj[1].reset(new C());
+		ext[0].reset(new Ext()); ext[1].reset(new Ext());
+		j.begin();
+		j.line("new", "ok" + tail());
+	}
+
+	// ---- handle creation
+	void hBegin(int o, int d) { It it = O(o).GetBegin(); store(d, it); j.line(fmt("begin %c %d", on(o), d), "ok " + desc(it) + tail()); }
+	void hEnd(int o, int d) { It it = O(o).GetEnd(); store(d, it); j.line(fmt("end %c %d", on(o), d), "ok " + desc(it) + tail()); }
+	void hLower(int o, uint32_t k, int d) { It it = O(o).GetLowerBound(k); store(d, it); j.line(fmt("lower %c %u %d", on(o), k, d), "ok " + desc(it) + tail()); }
+	void hUpper(int o, uint32_t k, int d) { It it = O(o).GetUpperBound(k); store(d, it); j.line(fmt("upper %c %u %d", on(o), k, d), "ok " + desc(it) + tail()); }
+	void hFind(int o, uint32_t k, int d) { It it = O(o).Find(k); store(d, it); j.line(fmt("find %c %u %d", on(o), k, d), "ok " + desc(it) + tail()); }
+
+	// ---- mutating entry points without a handle argument
+	void mInsert(int o, uint32_t k, int d) {
+		Snap b = snap();
+		auto r = Ad::insert(O(o), k, (int)rng.below(20));
+		note(b); store(d, r.first);
+		j.mut(r.second ? "Insert(new key)" : "Insert(existing key)");
+		j.line(fmt("ins %c %u %d", on(o), k, d), fmt("ok %d ", (int)r.second) + desc(r.first) + tail());
+	}
+	void mInsertRange(int o, const std::vector<uint32_t>& ks) {
+		Snap b = snap();
+		Ad::insertRange(O(o), ks, (int)rng.below(4));
+		note(b);
+		std::string l = fmt("insr %c", on(o));
+		for (uint32_t k : ks) l += " " + std::to_string(k);
+		j.mut(b.k[o] == keys(o) ? "Insert(range, nothing new)" : "Insert(range)");
+		j.line(l, "ok" + tail());
+	}
+	void mRemoveKey(int o, uint32_t k) {
+		Snap b = snap(); size_t n = O(o).Remove(k); note(b);
+		j.mut(n ? (n == b.k[o].size() && Ad::multi ? "Remove(key, all elements)" : "Remove(key present)") : "Remove(key absent)");
+		j.line(fmt("rmk %c %u", on(o), k), fmt("ok %zu", n) + tail());
+	}
+	void mRemoveIf(int o, uint32_t m, uint32_t r) {
+		Snap b = snap(); size_t n = Ad::removeIf(O(o), m, r); note(b);
+		j.mut(n ? "Remove(filter, some)" : "Remove(filter, none)");
+		j.line(fmt("rmif %c %u %u", on(o), m, r), fmt("ok %zu", n) + tail());
+	}
+	void mClear(int o) { Snap b = snap(); O(o).Clear(); note(b); j.mut(b.params[o] ? "Clear" : "Clear(no node params)"); j.line(fmt("clear %c", on(o)), "ok" + tail()); }
+	void mSwap() { Snap b = snap(); if (rng.below(2)) O(0).Swap(O(1)); else swap(O(0), O(1)); note(b); j.mut("Swap"); j.line("swap", "ok" + tail()); }
+	void mMerge(int src) {
+		Snap b = snap();
+		if (rng.below(2)) O(src).MergeTo(O(1 - src)); else O(1 - src).MergeFrom(O(src));
+		note(b);
+		Snap a = snap();
+		const char* path = b.k[src].empty() ? "empty source" : b.k[1 - src].empty() ? "swap when destination empty"
+			: !a.root[src] ? "pvMergeFast" : a.k[src] == b.k[src] ? "item-wise, nothing moved" : "item-wise";
+		j.mut(std::string(src ? "MergeFrom(" : "MergeTo(") + path + ")");
+		j.line(fmt("merge %c", on(src)), "ok" + tail());
+	}
+	void mMergeSelf(int o) { Snap b = snap(); O(o).MergeTo(O(o)); note(b); j.mut("MergeTo(itself)"); j.line(fmt("mergeself %c", on(o)), "ok" + tail()); }
+	void mInsertExt(int o, uint32_t k, bool full, int d) {
+		if (full) Ad::fillExt(*ext[o], k); else ext[o]->Clear();
+		Snap before = snap();
+		std::string res;
+		lastStored = -1;
+		std::string ex = guard([&] { auto r = Ad::insertExt(O(o), *ext[o]); store(d, r.first); res = fmt("ok %d ", (int)r.second) + desc(r.first); });
+		if (ex.empty()) { note(before); restamp(); }
+		std::string opline = fmt("insx %c %d %u %d", on(o), (int)full, k, d);
+		j.mut(full ? "Insert(extracted item)" : "Insert(empty extracted item)");
+		j.line(opline, (ex.empty() ? res : ex) + tail());
+		j.judge(full ? -1 : 1, ex, before == snap(), opline, "empty extracted-item holder", "none");
+	}
+
+	// ---- entry points that take iterators.  need: +1 an element, 0 element or end (a position), -1 anything
+	bool use(std::vector<int> hs, int target, int need, bool nullAllowed, bool extOk, bool mutating, bool bumps, bool argsOk,
+		std::function<std::string()> call, const std::string& opline) {
+		Snap before = snap();
+		bool stale = false, foreign = false, isNull = false, notElem = false;
+		std::string kinds;
+		for (int h : hs) {
+			const Slot& sl = slots[h];
+			if (sl.kind == T_NULL) isNull = true;
+			else {
+				if (mods.stale(sl.cell, sl.born)) stale = true;
+				if (target >= 0 && sl.cell != before.cell[target]) foreign = true;
+				if (sl.kind == T_END) notElem = true;
+			}
+			kinds += tkName(sl.kind); kinds += hs.size() > 1 ? "," : "";
+		}
+		std::string res;
+		lastStored = -1;
+		std::string ex = guard([&] { res = call(); });
+		Snap after = snap();
+		if (mutating && ex.empty() && bumps) { note(before); restamp(); }
+		j.line(opline, (ex.empty() ? res : ex) + tail());
+		int must; std::string why;
+		// Add / Remove(range) on a tree without root node accept exactly the default-constructed iterator
+		bool rootless = target >= 0 && !before.root[target];
+		if (stale) { must = 1; why = "stale iterator"; }
+		else if (foreign) { must = 1; why = "iterator of another container"; }
+		else if (isNull && !nullAllowed && !(rootless && need == 0)) { must = 1; why = "null iterator where a position is required"; }
+		else if (need > 0 && (notElem || isNull)) { must = 1; why = "end iterator where an element is required"; }
+		else if (!extOk) { must = 1; why = "extracted-item holder in the wrong state"; }
+		else if (!argsOk) { must = 1; why = "invalid range"; }
+		else { must = -1; }
+		j.judge(must, ex, before == after, opline, why, kinds);
+		return ex == BAD;
+	}
+
+	bool uDeref(int h) { return use({ h }, -1, +1, false, true, false, false, true, [&] { return "ok " + std::to_string(Ad::key(slots[h].it)); }, fmt("deref %d", h)); }
+	bool uInc(int h, int d) {
+		return use({ h }, -1, +1, false, true, false, false, true,
+			[&] { It it = slots[h].it; if (rng.below(2)) ++it; else it++; store(d, it); return "ok " + desc(it); }, fmt("inc %d %d", h, d));
+	}
+	bool uDec(int h, int d) {
+		bool first = slots[h].kind != T_NULL && slots[h].rank == 0;
+		return use({ h }, -1, 0, false, true, false, false, !first,
+			[&] { It it = slots[h].it; if (rng.below(2)) --it; else it--; store(d, it); return "ok " + desc(it); }, fmt("dec %d %d", h, d));
+	}
+	bool uCheck(int h, int o, bool ae) {
+		return use({ h }, o, -1, ae, true, false, false, true, [&] { O(o).CheckIterator(slots[h].it, ae); return std::string("ok"); }, fmt("check %c %d %d", on(o), h, (int)ae));
+	}
+	// key that may be added in front of the position a fresh handle denotes (keys are spaced by at least 3)
+	uint32_t keyBefore(int h, int o) {
+		const Slot& sl = slots[h];
+		if (sl.kind == T_ELEM) return sl.key - 1;
+		std::vector<uint32_t> ks = keys(o);
+		return ks.empty() ? 500 : ks.back() + 5;
+	}
+	bool uAdd(int h, int o, int d) {
+		uint32_t k = keyBefore(h, o);
+		bool rej = use({ h }, o, 0, false, true, true, true, true,
+			[&] { It p = Ad::add(O(o), slots[h].it, k, (int)rng.below(12)); store(d, p); return "ok " + desc(p); }, fmt("add %c %d %u %d", on(o), h, k, d));
+		if (!rej) j.mut("Add(iterator)");
+		return rej;
+	}
+	bool uAddExt(int h, int o, bool full, int d) {
+		if (Ad::ts(O(o)).mRootNode == nullptr) return false;       // (root-less case: pvAddFirst keeps the node params when the creator throws; not modelled)
+		uint32_t k = keyBefore(h, o);
+		if (full) Ad::fillExt(*ext[o], k); else ext[o]->Clear();
+		bool rej = use({ h }, o, 0, false, full, true, true, true,
+			[&] { It p = Ad::addExt(O(o), slots[h].it, *ext[o]); store(d, p); return "ok " + desc(p); }, fmt("addx %c %d %d %u %d", on(o), h, (int)full, k, d));
+		if (!rej) j.mut("Add(iterator, extracted item)");
+		return rej;
+	}
+	bool uRemove(int h, int o, int d) {
+		bool rej = use({ h }, o, +1, false, true, true, true, true,
+			[&] { It r = O(o).Remove(slots[h].it); store(d, r); return "ok " + desc(r); }, fmt("rm %c %d %d", on(o), h, d));
+		if (!rej) j.mut("Remove(iterator)");
+		return rej;
+	}
+	bool uExtract(int h, int o, int d) {
+		bool rej = use({ h }, o, +1, false, true, true, true, true,
+			[&] { size_t rk = slots[h].rank; Ad::extract(O(o), slots[h].it); It r = O(o).GetBegin(); for (size_t i = 0; i < rk; ++i) ++r; store(d, r); return "ok " + desc(r); }, fmt("rm %c %d %d", on(o), h, d));
+		if (!rej) j.mut("Extract(iterator)");
+		return rej;
+	}
+	bool uRemoveExt(int h, int o, bool holderFull, int d) {
+		if (holderFull) Ad::fillExt(*ext[o], 777); else ext[o]->Clear();
+		bool rej = use({ h }, o, +1, false, !holderFull, true, true, true,
+			[&] { It r = Ad::removeExt(O(o), slots[h].it, *ext[o]); store(d, r); return "ok " + desc(r); }, fmt("rmx %c %d %d %d", on(o), h, (int)holderFull, d));
+		if (!rej) j.mut("Remove(iterator, extracted item)");
+		return rej;
+	}
+	bool uRemoveRange(int hb, int he, int o, int d) {
+		bool ordered = slots[hb].kind == T_NULL || slots[he].kind == T_NULL || slots[hb].rank <= slots[he].rank;
+		size_t n0 = O(o).GetCount();
+		bool rej = use({ hb, he }, o, 0, false, true, true, true, ordered,
+			[&] { It r = O(o).Remove(slots[hb].it, slots[he].it); store(d, r); return "ok " + desc(r); }, fmt("rmr %c %d %d %d", on(o), hb, he, d));
+		if (!rej) j.mut(O(o).GetCount() == n0 ? "Remove(range, empty)" : O(o).GetCount() == 0 ? "Remove(range, everything)" : "Remove(range)");
+		return rej;
+	}
+	bool uResetKey(int h, int o) {
+		uint32_t k = slots[h].kind == T_ELEM ? slots[h].key + 1 : 999;
+		bool rej = use({ h }, o, +1, false, true, true, false, true,
+			[&] { O(o).ResetKey(slots[h].it, k); return std::string("ok"); }, fmt("rk %c %d %u", on(o), h, k));
+		if (!rej) j.mut("ResetKey");
+		return rej;
+	}
+
+	// ------------------------------------------------------------------------------------------------ enumeration
+	static const int NSTATE = 7, NHANDLE = 8, NOP = 36, NUSE = 20;
+	std::vector<uint32_t> stateKeys(int st) {
+		std::vector<uint32_t> v;
+		switch (st) {
+		case 0: case 1: case 2: return v;
+		case 3: return { 50 };
+		case 4: return { 20, 30, 40, 50, 60 };
+		case 5: for (uint32_t i = 0; i < 40; ++i) v.push_back(10 + 4 * i); return v;      // more than one node
+		default: if (Ad::multi) return { 20, 30, 30, 30, 40 }; return { 20, 30, 33, 36, 40 };
+		}
+	}
+	std::vector<uint32_t> stateKeysB(int st) { if (st >= 4) return { 30, 300, 310 }; return {}; }
+	void build(int st) {
+		newScenario();
+		if (st == 1) { mInsert(0, 50, 30); mRemoveKey(0, 50); }                           // root node without elements
+		if (st == 2) { mInsert(0, 50, 30); mInsert(1, 60, 30); mMerge(0); mClear(1); }     // no root node, node params present
+		std::vector<uint32_t> ks = stateKeys(st);
+		if (ks.size() > 6) mInsertRange(0, ks); else for (uint32_t k : ks) mInsert(0, k, 30);
+		for (uint32_t k : stateKeysB(st)) mInsert(1, k, 30);
+	}
+	bool makeHandle(int hk, int st) {
+		std::vector<uint32_t> ks = stateKeys(st);
+		switch (hk) {
+		case 0: if (ks.empty()) return false; hFind(0, ks[ks.size() / 2], 0); return true;
+		case 1: hBegin(0, 0); return true;
+		case 2: hEnd(0, 0); return true;
+		case 3: hLower(0, ks.empty() ? 7 : ks.back() - 1, 0); return true;
+		case 4: hUpper(0, ks.empty() ? 7 : ks[0], 0); return true;
+		case 5: if (ks.empty()) return false; mInsert(0, ks[0], 0); return true;             // iterator returned by an insert
+		case 6: hFind(1, 300, 0); return true;                                              // iterator of B (element or null)
+		default: if (ks.size() < 2) return false; hBegin(0, 1); uInc(1, 0); return true;
+		}
+	}
+	bool applyOp(int op, int st) {
+		std::vector<uint32_t> ks = stateKeys(st);
+		bool hasB = !stateKeysB(st).empty();
+		switch (op) {
+		case 0: return true;
+		case 1: mInsert(0, 91, 31); return true;
+		case 2: if (ks.empty()) return false; mInsert(0, ks.back(), 31); return true;        // existing key (multi: a duplicate)
+		case 3: mInsertRange(0, { 92, 95 }); return true;
+		case 4: if (ks.size() < 2) return false; mInsertRange(0, { ks[1], ks[0] }); return true;
+		case 5: mInsertExt(0, 93, true, 31); return true;
+		case 6: if (ks.empty()) return false; mInsertExt(0, ks[0], true, 31); return true;
+		case 7: mInsertExt(0, 94, false, 31); return true;
+		case 8: hEnd(0, 20); uAdd(20, 0, 21); return true;
+		case 9: if (ks.empty()) return false; hBegin(0, 20); uAdd(20, 0, 21); return true;
+		case 10: hEnd(0, 20); uAddExt(20, 0, true, 21); return true;
+		case 11: if (ks.empty()) return false; hBegin(0, 20); uRemove(20, 0, 21); return true;
+		case 12: if (ks.empty()) return false; hFind(0, ks.back(), 20); uRemoveExt(20, 0, false, 21); return true;
+		case 13: if (ks.empty()) return false; hFind(0, ks.back(), 20); uExtract(20, 0, 21); return true;
+		case 14: if (ks.empty()) return false; mRemoveKey(0, ks[ks.size() / 2]); return true;
+		case 15: mRemoveKey(0, 97); return true;
+		case 16: if (ks.empty()) return false; mRemoveIf(0, 2, ks.back() % 2); return true;
+		case 17: mRemoveIf(0, 1000, 999); return true;
+		case 18: {   // ResetKey of an element other than the one the handle under test points at
+			if (ks.size() < 2) return false;
+			uint32_t k = (slots[0].kind == T_ELEM && slots[0].key == ks.back()) ? ks[0] : ks.back();
+			hFind(0, k, 20); uResetKey(20, 0); return true; }
+		case 19: mClear(0); return true;
+		case 20: if (ks.size() < 3) return false; hFind(0, ks[1], 20); hFind(0, ks[ks.size() - 1], 21); uRemoveRange(20, 21, 0, 22); return true;   // range inside
+		case 21: hBegin(0, 20); hEnd(0, 21); uRemoveRange(20, 21, 0, 22); return true;           // everything (Clear path) or the empty tree
+		case 22: if (ks.empty()) return false; hFind(0, ks[0], 20); uRemoveRange(20, 20, 0, 22); return true;   // empty range
+		case 23: mMerge(0); return true;                                                       // A is the source
+		case 24: mMerge(1); return true;                                                       // A is the destination
+		case 25: mMergeSelf(0); return true;
+		case 26: mSwap(); return true;
+		case 27: mSwap(); mSwap(); return true;
+		case 28: (void)O(0).ContainsKey(5); (void)O(0).GetKeyCount(30); hFind(0, 30, 22); hLower(0, 31, 23); return true;   // const entry points only
+		case 29: if (!hasB) return false; mInsert(1, 398, 31); return true;                     // modification of the OTHER container
+		case 30: if (!hasB) return false; mClear(1); return true;
+		case 31: if (ks.empty()) return false; mRemoveKey(0, ks[0]); mInsert(0, ks[0], 31); return true;    // same contents again
+		case 32: mClear(1); mMerge(0); return true;                                             // merge into an empty destination: contents swapped
+		case 33: mClear(1); mInsertRange(1, { 900, 901, 902 }); mMerge(0); return true;          // all of A below all of B: pvMergeFast
+		case 34: mClear(1); mInsertRange(1, { 1, 2 }); mMerge(1); return true;                   // all of B below all of A, B is the source
+		default: for (uint32_t i = 0; i < 40; ++i) mInsert(0, 600 + 3 * i, 31); return true;    // node splits
+		}
+	}
+	void applyUse(int u) {
+		switch (u) {
+		case 0: uDeref(0); break;
+		case 1: uInc(0, 40); break;
+		case 2: uDec(0, 40); break;
+		case 3: uCheck(0, 0, true); break;
+		case 4: uCheck(0, 0, false); break;
+		case 5: uCheck(0, 1, false); break;
+		case 6: uAdd(0, 0, 40); break;
+		case 7: uAddExt(0, 0, true, 40); break;
+		case 8: uAddExt(0, 0, false, 40); break;
+		case 9: uRemove(0, 0, 40); break;
+		case 10: uRemoveExt(0, 0, false, 40); break;
+		case 11: uRemoveExt(0, 0, true, 40); break;
+		case 12: uExtract(0, 0, 40); break;
+		case 13: uResetKey(0, 0); break;
+		case 14: hEnd(0, 41); uRemoveRange(0, 41, 0, 40); break;      // [handle, fresh end)
+		case 15: hBegin(0, 41); uRemoveRange(41, 0, 0, 40); break;    // [fresh begin, handle)
+		case 16: uRemoveRange(0, 0, 0, 40); break;                    // empty range at the handle
+		case 17: hBegin(0, 41); uRemoveRange(0, 41, 0, 40); break;    // reversed unless the handle is the first position
+		case 18: uRemove(0, 1, 40); break;
+		default: uAdd(0, 1, 40); break;
+		}
+	}
+	void enumerate(bool thorough) {
+		for (int st = 0; st < NSTATE; ++st)
+			for (int op = 0; op < NOP; ++op)
+				for (int hk = 0; hk < NHANDLE; ++hk)
+					for (int u = 0; u < NUSE; ++u) {
+						if (!thorough && st == 5 && (u % 4 != (op + hk) % 4)) continue;    // quick tier: a quarter of the uses on the large state
+						build(st);
+						if (!makeHandle(hk, st)) continue;
+						if (!applyOp(op, st)) continue;
+						applyUse(u);
+						c.stats.count("triples executed");
+					}
+	}
+	void randomHistory(int steps) {
+		newScenario();
+		int nslots = 6;
+		for (int d = 0; d < nslots; ++d) hEnd(0, d);
+		for (int i = 0; i < steps; ++i) {
+			int o = (int)rng.below(2);
+			uint32_t k = 10 + 3 * (uint32_t)rng.below(20);
+			int d = (int)rng.below(nslots), h = (int)rng.below(nslots);
+			switch (rng.below(24)) {
+			case 0: case 1: case 2: mInsert(o, k, d); break;
+			case 3: hFind(o, k, d); break;
+			case 4: hBegin(o, d); break;
+			case 5: hLower(o, k + 1, d); break;
+			case 6: hEnd(o, d); break;
+			case 7: mRemoveKey(o, k); break;
+			case 8: if (rng.below(4) == 0) mClear(o); break;
+			case 9: if (rng.below(3) == 0) mSwap(); break;
+			case 10: if (rng.below(3) == 0) mMerge(o); break;
+			case 11: uDeref(h); break;
+			case 12: uInc(h, d); break;
+			case 13: uDec(h, d); break;
+			case 14: uRemove(h, o, d); break;
+			case 15: uCheck(h, o, rng.below(2)); break;
+			case 16: uRemoveExt(h, o, rng.below(3) == 0, d); break;
+			case 17: { // Add needs a position that fits the key: the upper bound of a key made now
+				hUpper(o, k + 1, nslots); if (!O(o).ContainsKey(k + 1) || Ad::multi) { Slot& sl = slots[nslots]; (void)sl;
+					std::string op = fmt("add %c %d %u %d", on(o), nslots, k + 1, d);
+					use({ nslots }, o, 0, false, true, true, true, true, [&] { It p = Ad::add(O(o), slots[nslots].it, k + 1, (int)rng.below(12)); store(d, p); return "ok " + desc(p); }, op); }
+				break; }
+			case 18: uAdd(h, o, d); break;
+			case 19: mRemoveIf(o, 3, (uint32_t)rng.below(3)); break;
+			case 20: mInsertRange(o, { k, k + 3 }); break;
+			case 21: uExtract(h, o, d); break;
+			case 22: { int h2 = (int)rng.below(nslots); uRemoveRange(h, h2, o, d); break; }
+			default: uResetKeyRandom(h, o); break;
+			}
+		}
+		c.stats.count("random histories");
+	}
+	// ResetKey in a random history must keep the order: only used when the neighbour keys leave room (keys are 10 + 3i, +1 fits)
+	void uResetKeyRandom(int h, int o) {
+		const Slot& sl = slots[h];
+		if (sl.kind == T_ELEM && !mods.stale(sl.cell, sl.born) && sl.cell == cellOf(o) && (sl.key % 3 != 1 || O(o).ContainsKey(sl.key + 1))) return;
+		if (sl.kind == T_ELEM && !mods.stale(sl.cell, sl.born) && sl.cell == cellOf(o) && !Ad::multi && O(o).ContainsKey(sl.key + 1)) return;
+		uResetKey(h, o);
+	}
+};
+
+template<typename Ad>
+static void runTree(Ctx& c, Rng& rng, const std::string& suite, const std::string& cfg) {
+	TreeRun<Ad> r(c, rng, suite, cfg);
+	r.enumerate(c.thorough);
+	int n = c.thorough ? 400 : 60;
+	for (int i = 0; i < n; ++i) r.randomHistory(c.thorough ? 160 : 80);
+}
+#endif
+
+// ============================================================================================================
+#if VF_PART == 3
+// ---------------------------------------------------------------- HashMultiMap (key version + value version)
+
+struct XMM : public momo::HashMultiMapSettings {
+	static const momo::CheckMode checkMode = momo::CheckMode::exception;
+	static const momo::ExtraCheckMode extraCheckMode = momo::ExtraCheckMode::nothing;
+	static const bool checkKeyVersion = true;
+	static const bool checkValueVersion = true;
+};
+template<typename HashBucket>
+struct ModTraitsM : public momo::HashTraits<uint32_t, HashBucket> {
+	size_t GetHashCode(const uint32_t& key) const { return (size_t)(key % 1000) * 0x9E3779B97F4A7C15ull; }
+	bool IsEqual(const uint32_t& a, const uint32_t& b) const { return a % 1000 == b % 1000; }
+};
+
+enum { K_ELEM = 0, K_EMPTY = 1, K_NULL = 2, V_ELEM = 3, V_END = 4 };
+static const char* mkName(int k) { static const char* n[] = { "key-element", "key-empty-position", "key-null", "value-element", "value-end" }; return n[k]; }
+
+template<typename Traits>
+struct MultiRun {
+	typedef momo::HashMultiMap<uint32_t, uint32_t, Traits, MM, momo::HashMultiMapKeyValueTraits<uint32_t, uint32_t, MM>, XMM> C;
+	typedef typename C::ConstKeyIterator KIt;
+	typedef typename C::ConstIterator VIt;
+	Ctx& c; Rng& rng; Suite s; Judge j; Mods mods;
+	std::unique_ptr<C> obj[2];
+	struct KSlot { KIt it; const void* cell = nullptr; int kind = K_NULL; uint64_t born = 0; uint32_t key = 0; };
+	struct VSlot { VIt it; const void* kcell = nullptr; const void* vcell = nullptr; int kind = V_END; uint64_t born = 0; uint32_t key = 0; size_t idx = 0; };
+	std::vector<KSlot> ks; std::vector<VSlot> vs;
+	int lastK = -1, lastV = -1;
+
+	MultiRun(Ctx& c_, Rng& r, const std::string& suite, const std::string& cfg)
+		: c(c_), rng(r), s(c_, suite, "model ver fam=mmap"), j(c_, s, cfg) {}
+
+	C& O(int o) { return *obj[o]; }
+	static char on(int o) { return o ? 'B' : 'A'; }
+	const void* kcellOf(int o) { return O(o).mHashMap.mHashSet.mCrew.GetVersion(); }
+	const void* vcellOf(int o) { return &O(o).mValueCrew.GetValueVersion(); }
+	typedef std::map<uint32_t, std::vector<uint32_t>> KV;
+	KV contents(int o) {
+		KV m;
+		for (auto kit = O(o).GetKeyBounds().GetBegin(); !!kit; ++kit) { auto& v = m[kit->key]; for (const uint32_t& x : *kit) v.push_back(x); }
+		return m;
+	}
+	std::string kvStr(int o) {
+		std::string r = "{"; bool first = true;
+		for (auto& kvp : contents(o)) { if (!first) r += ";"; first = false; r += std::to_string(kvp.first) + ":" + listStr(kvp.second); }
+		return r + "}c" + std::to_string(O(o).mHashMap.GetCapacity());
+	}
+	std::string tail() { return " | A=" + kvStr(0) + " B=" + kvStr(1); }
+	static const typename decltype(C::mHashMap)::ConstIterator& base(const KIt& k) { return k.mBaseIterator; }
+	static const void* kver(const KIt& k) { return base(k).mHashSetIterator.mContainerVersion; }
+	static bool kHasElem(const KIt& k) { const auto& si = base(k).mHashSetIterator; return si.mBucketIterator != decltype(si.mBucketIterator)(); }
+	static std::string kdesc(const KIt& k) {
+		if (kHasElem(k)) return "e" + std::to_string(k->key) + (base(k).mHashSetIterator.mBuckets != nullptr ? "m" : "");
+		return kver(k) == nullptr ? "null" : "empty";
+	}
+	static std::string vdesc(const VIt& v) {
+		if (v.mValueIterator != nullptr) return "v" + std::to_string(v.mKeyIterator->key) + ":" + std::to_string(v.mValueIterator - v.mKeyIterator->GetBegin());
+		return "end";      // (a default-constructed iterator and an iterator moved past the last value behave alike)
+	}
+	static std::string toStr(const VIt& v) {
+		if (v.mValueIterator == nullptr) return "-";
+		return std::to_string(v.mKeyIterator->key) + ":" + std::to_string(v.mValueIterator - v.mKeyIterator->GetBegin());
+	}
+	void storeK(int d, const KIt& k) {
+		if ((int)ks.size() <= d) ks.resize(d + 1);
+		KSlot& sl = ks[d]; sl.it = k; sl.cell = kver(k); sl.born = mods.serial; lastK = d;
+		sl.kind = kHasElem(k) ? K_ELEM : (sl.cell == nullptr ? K_NULL : K_EMPTY);
+		sl.key = sl.kind == K_ELEM ? k->key : 0;
+	}
+	void storeV(int d, const VIt& v) {
+		if ((int)vs.size() <= d) vs.resize(d + 1);
+		VSlot& sl = vs[d]; sl.it = v; sl.vcell = v.mContainerVersion; sl.kcell = kver(v.mKeyIterator); sl.born = mods.serial; lastV = d;
+		sl.kind = v.mValueIterator != nullptr ? V_ELEM : V_END;
+		if (sl.kind == V_ELEM) { sl.key = v.mKeyIterator->key; sl.idx = (size_t)(v.mValueIterator - v.mKeyIterator->GetBegin()); }
+	}
+	void restamp() { if (lastK >= 0) ks[lastK].born = mods.serial; if (lastV >= 0) vs[lastV].born = mods.serial; }
+	struct Snap {
+		KV kv[2]; size_t cap[2]; const void* kc[2]; const void* vc[2];
+		bool operator==(const Snap& x) const { return kv[0] == x.kv[0] && kv[1] == x.kv[1] && cap[0] == x.cap[0] && cap[1] == x.cap[1] && kc[0] == x.kc[0] && kc[1] == x.kc[1]; }
+	};
+	Snap snap() { Snap x; for (int o = 0; o < 2; ++o) { x.kv[o] = contents(o); x.cap[o] = O(o).mHashMap.GetCapacity(); x.kc[o] = kcellOf(o); x.vc[o] = vcellOf(o); } return x; }
+	static std::vector<uint32_t> keysOf(const KV& m) { std::vector<uint32_t> v; for (auto& p : m) v.push_back(p.first); return v; }
+	// touchV / touchK: the entry point increments that version even when nothing changes
+	void note(const Snap& before, int objMask, bool touchV, bool touchK) {
+		Snap after = snap();
+		++mods.serial;
+		for (int o = 0; o < 2; ++o) {
+			int p = (after.kc[o] == before.kc[o]) ? o : 1 - o;
+			bool keysChanged = keysOf(after.kv[o]) != keysOf(before.kv[p]) || after.cap[o] != before.cap[p];
+			bool anyChanged = after.kv[o] != before.kv[p] || keysChanged;
+			if (keysChanged) mods.mod[after.kc[o]] = mods.serial; else if (touchK && (objMask & (1 << o))) mods.touch[after.kc[o]] = mods.serial;
+			if (anyChanged) mods.mod[after.vc[o]] = mods.serial; else if (touchV && (objMask & (1 << o))) mods.touch[after.vc[o]] = mods.serial;
+		}
+	}
+	void newScenario() {
+		ks.clear(); vs.clear(); mods.clear();
+		obj[0].reset(); obj[1].reset(); obj[0].reset(new C()); obj[1].reset(new C());
+		j.begin(); j.line("new", "ok" + tail());
+	}
+
+	// ---- handle creation
+	void hFindKey(int o, uint32_t k, int d) { KIt it = O(o).Find(k); storeK(d, it); j.line(fmt("fk %c %u %d", on(o), k, d), "ok " + kdesc(it) + tail()); }
+	void hKeyBegin(int o, int d) {
+		KIt it = O(o).GetKeyBounds().GetBegin(); storeK(d, it);
+		j.line(fmt("kb %c %s %d", on(o), (!!it ? std::to_string(it->key) : std::string("0")).c_str(), d), "ok " + kdesc(it) + tail());
+	}
+	void hBegin(int o, int d) {
+		KIt kb = O(o).GetKeyBounds().GetBegin();
+		VIt it = static_cast<const C&>(O(o)).GetBegin(); storeV(d, it);
+		j.line(fmt("begin %c %s %s %d", on(o), (!!kb ? std::to_string(kb->key) : std::string("0")).c_str(), toStr(it).c_str(), d), "ok " + vdesc(it) + tail());
+	}
+	void hEnd(int o, int d) { VIt it = static_cast<const C&>(O(o)).GetEnd(); storeV(d, it); j.line(fmt("end %c %d", on(o), d), "ok " + vdesc(it) + tail()); }
+
+	// ---- mutating entry points without a handle
+	void mAdd(int o, uint32_t k, uint32_t v, int d) {
+		Snap b = snap(); bool had = O(o).ContainsKey(k);
+		VIt it;
+		switch (rng.below(3)) { case 0: it = O(o).Add(k, v); break; case 1: it = O(o).AddVar(k, v); break; default: it = O(o).AddCrt(k, [v](uint32_t* p) { *p = v; }); }
+		note(b, 1 << o, false, false); storeV(d, it);
+		j.mut(had ? "Add(existing key, value)" : "Add(new key, value)");
+		j.line(fmt("add %c %u %u %zu %d", on(o), k, v, O(o).mHashMap.GetCapacity(), d), "ok " + vdesc(it) + tail());
+	}
+	void mInsertKey(int o, uint32_t k, int d) {
+		Snap b = snap(); bool had = O(o).ContainsKey(k);
+		KIt it = O(o).InsertKey(k); note(b, 1 << o, false, false); storeK(d, it);
+		j.mut(had ? "InsertKey(existing)" : "InsertKey(new)");
+		j.line(fmt("insk %c %u %zu %d", on(o), k, O(o).mHashMap.GetCapacity(), d), "ok " + kdesc(it) + tail());
+	}
+	void mRemoveKeyByKey(int o, uint32_t k) {
+		Snap b = snap(); size_t n = O(o).RemoveKey(k); note(b, 1 << o, false, false);
+		j.mut(b.kv[o].count(k) ? "RemoveKey(key present)" : "RemoveKey(key absent)");
+		j.line(fmt("rmkk %c %u", on(o), k), fmt("ok %zu", n) + tail());
+	}
+	void mRemoveIf(int o, uint32_t mo, uint32_t r) {
+		Snap b = snap(); size_t n = O(o).Remove([mo, r](const uint32_t&, const uint32_t& v) { return v % mo == r; }); note(b, 1 << o, false, false);
+		j.mut(n ? "Remove(filter, some)" : "Remove(filter, none)");
+		j.line(fmt("rmif %c %u %u", on(o), mo, r), fmt("ok %zu", n) + tail());
+	}
+	void mClear(int o) { Snap b = snap(); O(o).Clear(); note(b, 1 << o, true, b.cap[o] != 0); j.mut("Clear"); j.line(fmt("clear %c", on(o)), "ok" + tail()); }
+	void mSwap() { Snap b = snap(); if (rng.below(2)) O(0).Swap(O(1)); else swap(O(0), O(1)); note(b, 3, false, false); j.mut("Swap"); j.line("swap", "ok" + tail()); }
+
+	// ---- uses.  The judgement is made from the harness's own snapshots.
+	struct Req { bool stale = false, foreign = false, wrongKind = false, badIndex = false; std::string kind; };
+	bool finish(const Snap& before, const std::string& ex, const std::string& res, const std::string& opline, const Req& q, bool touched) {
+		j.line(opline, (ex.empty() ? res : ex) + tail());
+		int must; std::string why;
+		if (q.stale) { must = 1; why = "stale iterator"; }
+		else if (q.foreign) { must = 1; why = "iterator of another container"; }
+		else if (q.wrongKind) { must = 1; why = "end/empty iterator where an element is required (or the reverse)"; }
+		else if (q.badIndex) { must = 1; why = "out-of-range value index"; }
+		else if (touched) { must = 0; why = "version incremented without a change"; }
+		else must = -1;
+		j.judge(must, ex, before == snap(), opline, why, q.kind);
+		return ex == BAD;
+	}
+	// key-iterator use; needKind: K_ELEM / K_EMPTY / -1 (any); nullOk: a default-constructed iterator is acceptable
+	bool useK(int h, int target, int needKind, bool nullOk, bool idxOk, bool mutating, bool touchV, std::function<std::string()> call, std::function<std::string(bool)> mkline) {
+		KSlot sl = ks[h];
+		Snap before = snap();
+		Req q; q.kind = mkName(sl.kind);
+		q.stale = sl.kind != K_NULL && mods.stale(sl.cell, sl.born);
+		q.foreign = target >= 0 && sl.kind != K_NULL && sl.cell != before.kc[target];
+		q.wrongKind = (sl.kind == K_NULL && !nullOk) || (needKind >= 0 && sl.kind != K_NULL && sl.kind != needKind);
+		q.badIndex = !idxOk;
+		bool touched = sl.kind != K_NULL && mods.touched(sl.cell, sl.born);
+		std::string res; lastK = lastV = -1;
+		std::string ex = guard([&] { res = call(); });
+		if (mutating && ex.empty()) { note(before, target >= 0 ? 1 << target : 0, touchV, false); restamp(); }
+		return finish(before, ex, res, mkline(ex.empty()), q, touched);
+	}
+	bool useV(int h, int target, bool needElem, bool mutating, std::function<std::string()> call, std::function<std::string(bool)> mkline) {
+		VSlot sl = vs[h];
+		Snap before = snap();
+		Req q; q.kind = mkName(sl.kind);
+		q.stale = sl.kind == V_ELEM && (mods.stale(sl.vcell, sl.born) || mods.stale(sl.kcell, sl.born));
+		q.foreign = target >= 0 && sl.kind == V_ELEM && (sl.vcell != before.vc[target] || sl.kcell != before.kc[target]);
+		q.wrongKind = needElem && sl.kind != V_ELEM;
+		bool touched = sl.kind == V_ELEM && (mods.touched(sl.vcell, sl.born) || mods.touched(sl.kcell, sl.born));
+		std::string res; lastK = lastV = -1;
+		std::string ex = guard([&] { res = call(); });
+		if (mutating && ex.empty()) { note(before, target >= 0 ? 1 << target : 0, false, false); restamp(); }
+		return finish(before, ex, res, mkline(ex.empty()), q, touched);
+	}
+	size_t countOfKey(int o, uint32_t k) { auto m = contents(o); auto it = m.find(k); return it == m.end() ? 0 : it->second.size(); }
+
+	bool uKDeref(int h) { return useK(h, -1, K_ELEM, false, true, false, false, [&] { return fmt("ok %u %zu", ks[h].it->key, ks[h].it->GetCount()); }, [&](bool) { return fmt("kd %d", h); }); }
+	bool uKInc(int h, int d) {
+		KIt r;
+		return useK(h, -1, K_ELEM, false, true, false, false, [&] { KIt it = ks[h].it; ++it; r = it; storeK(d, it); return "ok " + kdesc(it); },
+			[&](bool ok) { return fmt("kinc %d %s %d", h, ok && kHasElem(r) ? std::to_string(r->key).c_str() : "-", d); });
+	}
+	bool uVDeref(int h) { return useV(h, -1, true, false, [&] { auto ref = *vs[h].it; return fmt("ok %u %u", ref.key, ref.value); }, [&](bool) { return fmt("vd %d", h); }); }
+	bool uVInc(int h, int d) {
+		VIt r;
+		return useV(h, -1, true, false, [&] { VIt it = vs[h].it; ++it; r = it; storeV(d, it); return "ok " + vdesc(it); },
+			[&](bool ok) { return fmt("vinc %d %s %d", h, ok ? toStr(r).c_str() : "-", d); });
+	}
+	bool uAddAt(int h, int o, uint32_t v, int d) {
+		bool rej = useK(h, o, K_ELEM, false, true, true, false, [&] { VIt it = rng.below(2) ? O(o).Add(ks[h].it, v) : O(o).AddVar(ks[h].it, v); storeV(d, it); return "ok " + vdesc(it); },
+			[&](bool) { return fmt("addat %c %d %u %d", on(o), h, v, d); });
+		if (!rej) j.mut("Add(key iterator, value)");
+		return rej;
+	}
+	bool uAddKey(int h, int o, uint32_t k, int d) {
+		bool rej = useK(h, o, K_EMPTY, false, true, true, false, [&] { KIt it = O(o).AddKeyCrt(ks[h].it, [k](uint32_t* p) { *p = k; }); storeK(d, it); return "ok " + kdesc(it); },
+			[&](bool) { return fmt("addk %c %d %u %zu %d", on(o), h, k, O(o).mHashMap.GetCapacity(), d); });
+		if (!rej) j.mut("AddKeyCrt");
+		return rej;
+	}
+	bool uRemoveAt(int h, int o, size_t i, int d) {
+		bool fresh = ks[h].kind == K_ELEM && !mods.stale(ks[h].cell, ks[h].born) && ks[h].cell == kcellOf(o);
+		bool idxOk = !fresh || i < countOfKey(o, ks[h].key);
+		VIt r;
+		bool rej = useK(h, o, K_ELEM, false, idxOk, true, false, [&] { r = O(o).Remove(ks[h].it, i); storeV(d, r); return "ok " + vdesc(r); },
+			[&](bool ok) { return fmt("rmat %c %d %zu %s %d", on(o), h, i, ok ? toStr(r).c_str() : "-", d); });
+		if (!rej) j.mut("Remove(key iterator, index)");
+		return rej;
+	}
+	bool uRemove(int h, int o, int d) {
+		VIt r;
+		bool rej = useV(h, o, true, true, [&] { r = O(o).Remove(vs[h].it); storeV(d, r); return "ok " + vdesc(r); },
+			[&](bool ok) { return fmt("rm %c %d %s %d", on(o), h, ok ? toStr(r).c_str() : "-", d); });
+		if (!rej) j.mut("Remove(iterator)");
+		return rej;
+	}
+	bool uRemoveValues(int h, int o, int d) {
+		VIt r;
+		bool rej = useK(h, o, K_ELEM, false, true, true, true, [&] { r = O(o).RemoveValues(ks[h].it); storeV(d, r); return "ok " + vdesc(r); },
+			[&](bool ok) { return fmt("rmv %c %d %s %d", on(o), h, ok ? toStr(r).c_str() : "-", d); });
+		if (!rej) j.mut("RemoveValues");
+		return rej;
+	}
+	bool uRemoveKey(int h, int o, int d) {
+		KIt r;
+		bool rej = useK(h, o, K_ELEM, false, true, true, false, [&] { r = O(o).RemoveKey(ks[h].it); storeK(d, r); return "ok " + kdesc(r); },
+			[&](bool ok) { return fmt("rmkey %c %d %s %d", on(o), h, ok && kHasElem(r) ? std::to_string(r->key).c_str() : "-", d); });
+		if (!rej) j.mut("RemoveKey(key iterator)");
+		return rej;
+	}
+	bool uResetKey(int h, int o) {
+		uint32_t k = ks[h].kind == K_ELEM ? ks[h].key + 1000 : 1005;
+		// ResetKey increments no version: the change is not recorded as a modification
+		KSlot sl = ks[h];
+		Snap before = snap();
+		Req q; q.kind = mkName(sl.kind);
+		q.stale = sl.kind != K_NULL && mods.stale(sl.cell, sl.born);
+		q.foreign = sl.kind != K_NULL && sl.cell != before.kc[o];
+		q.wrongKind = sl.kind != K_ELEM;
+		bool touched = sl.kind != K_NULL && mods.touched(sl.cell, sl.born);
+		std::string ex = guard([&] { O(o).ResetKey(ks[h].it, k); });
+		Snap after = snap();
+		std::string opline = fmt("rk %c %d %u", on(o), h, k);
+		j.line(opline, (ex.empty() ? std::string("ok") : ex) + tail());
+		int must = (q.stale || q.foreign || q.wrongKind) ? 1 : touched ? 0 : -1;
+		j.judge(must, ex, ex.empty() || before == after, opline, q.stale ? "stale iterator" : q.foreign ? "iterator of another container" : q.wrongKind ? "end/empty iterator where an element is required (or the reverse)" : "version incremented without a change", q.kind);
+		if (ex.empty()) j.mut("ResetKey");
+		return ex == BAD;
+	}
+	bool uMakeIt(int h, int o, size_t i, int d) {
+		bool fresh = ks[h].kind == K_ELEM && !mods.stale(ks[h].cell, ks[h].born) && ks[h].cell == kcellOf(o);
+		bool idxOk = !fresh || i <= countOfKey(o, ks[h].key);
+		bool emptyZero = ks[h].kind != K_ELEM && i == 0;          // MakeIterator(empty key iterator, 0) returns the end iterator
+		VIt r;
+		if (emptyZero) {
+			Snap before = snap();
+			std::string ex = guard([&] { r = static_cast<const C&>(O(o)).MakeIterator(ks[h].it, i); storeV(d, r); });
+			std::string opline = fmt("mkit %c %d %zu - %d", on(o), h, i, d);
+			j.line(opline, (ex.empty() ? "ok " + vdesc(r) : ex) + tail());
+			j.judge(-1, ex, before == snap(), opline, "", mkName(ks[h].kind));
+			return ex == BAD;
+		}
+		return useK(h, o, K_ELEM, false, idxOk, false, false, [&] { r = static_cast<const C&>(O(o)).MakeIterator(ks[h].it, i); storeV(d, r); return "ok " + vdesc(r); },
+			[&](bool ok) { return fmt("mkit %c %d %zu %s %d", on(o), h, i, ok ? toStr(r).c_str() : "-", d); });
+	}
+	bool uMakeMutable(int h, int o, int d) {
+		if (vs[h].kind != V_ELEM) {
+			Snap before = snap(); VIt r;
+			std::string ex = guard([&] { r = O(o).MakeMutableIterator(vs[h].it); storeV(d, r); });
+			std::string opline = fmt("mkmut %c %d %d", on(o), h, d);
+			j.line(opline, (ex.empty() ? "ok " + vdesc(r) : ex) + tail());
+			j.judge(-1, ex, before == snap(), opline, "", mkName(vs[h].kind));
+			return ex == BAD;
+		}
+		return useV(h, o, true, false, [&] { VIt r = O(o).MakeMutableIterator(vs[h].it); storeV(d, r); return "ok " + vdesc(r); }, [&](bool) { return fmt("mkmut %c %d %d", on(o), h, d); });
+	}
+	bool uCheckV(int h, int o, bool ae) {
+		// CheckIterator(iter, allowEmpty): an end iterator passes iff allowEmpty (its key iterator is empty)
+		VSlot sl = vs[h];
+		Snap before = snap();
+		std::string ex = guard([&] { O(o).CheckIterator(sl.it, ae); });
+		std::string opline = fmt("chk %c %d %d", on(o), h, (int)ae);
+		j.line(opline, (ex.empty() ? std::string("ok") : ex) + tail());
+		bool stale = sl.kind == V_ELEM && (mods.stale(sl.vcell, sl.born) || mods.stale(sl.kcell, sl.born));
+		bool foreign = sl.kind == V_ELEM && (sl.vcell != before.vc[o] || sl.kcell != before.kc[o]);
+		bool touched = sl.kind == V_ELEM && (mods.touched(sl.vcell, sl.born) || mods.touched(sl.kcell, sl.born));
+		int must = stale || foreign ? 1 : (sl.kind != V_ELEM ? (ae ? -1 : 1) : touched ? 0 : -1);
+		j.judge(must, ex, before == snap(), opline, stale ? "stale iterator" : foreign ? "iterator of another container" : must > 0 ? "end iterator not allowed" : "version incremented without a change", mkName(sl.kind));
+		return ex == BAD;
+	}
+	bool uCheckK(int h, int o, bool ae) {
+		return useK(h, o, -1, ae, true, false, false, [&] { O(o).CheckKeyIterator(ks[h].it, ae); return std::string("ok"); }, [&](bool) { return fmt("chkk %c %d %d", on(o), h, (int)ae); });
+	}
+
+	// ------------------------------------------------------------------------------------------------ enumeration
+	static const int NSTATE = 5, NHANDLE = 9, NOP = 26, NUSE = 22;
+	void build(int st) {
+		newScenario();
+		if (st == 1) { mInsertKey(0, 5, 30); mRemoveKeyByKey(0, 5); }                       // empty, nested map has buckets
+		if (st == 2) { mAdd(0, 5, 50, 30); mInsertKey(0, 6, 30); }                          // one key with a value, one without
+		if (st >= 3) { for (uint32_t k = 1; k <= 4; ++k) for (uint32_t v = 0; v < k; ++v) mAdd(0, k * 10, k * 100 + v, 30); mInsertKey(0, 55, 30); mAdd(1, 20, 7, 30); mAdd(1, 70, 8, 30); }
+		if (st == 4) { for (uint32_t v = 0; v < 12; ++v) mAdd(0, 40, 900 + v, 30); }          // a value array beyond the fast count
+	}
+	// handle kinds 0..4: key iterators in K slot 0, 5..8: value iterators in V slot 0
+	bool makeHandle(int hk, int st) {
+		bool any = st >= 2;
+		switch (hk) {
+		case 0: if (!any) return false; hFindKey(0, st == 2 ? 5 : 30, 0); return true;       // key with values
+		case 1: hFindKey(0, 77, 0); return true;                                            // empty position
+		case 2: hKeyBegin(0, 0); return true;                                               // movable (or null)
+		case 3: if (!any) return false; hFindKey(0, st == 2 ? 6 : 55, 0); return true;       // key without values
+		case 4: hFindKey(1, 20, 0); return true;                                            // key iterator of B
+		case 5: hBegin(0, 0); return true;
+		case 6: hEnd(0, 0); return true;
+		case 7: if (!any) return false; hFindKey(0, st == 2 ? 5 : 30, 1); uMakeIt(1, 0, st == 2 ? 0 : 1, 0); return true;   // MakeIterator(key, index)
+		default: if (!any) return false; mAdd(0, st == 2 ? 5 : 30, 4444, 0); return true;    // iterator returned by Add
+		}
+	}
+	bool applyOp(int op, int st) {
+		bool any = st >= 2; uint32_t k1 = st == 2 ? 5 : 20, k0 = st == 2 ? 6 : 55;
+		switch (op) {
+		case 0: return true;
+		case 1: if (!any) return false; mAdd(0, k1, 1234, 31); return true;                  // value for an existing key
+		case 2: mAdd(0, 91, 1, 31); return true;                                            // new key
+		case 3: mInsertKey(0, 92, 31); return true;                                         // key version only
+		case 4: if (!any) return false; mInsertKey(0, k1, 31); return true;                  // nothing happens
+		case 5: hFindKey(0, 93, 20); uAddKey(20, 0, 93, 21); return true;
+		case 6: if (!any) return false; hFindKey(0, k1, 20); uAddAt(20, 0, 4321, 21); return true;
+		case 7: if (!any) return false; hFindKey(0, k1, 20); uRemoveAt(20, 0, 0, 21); return true;
+		case 8: if (!any) return false; hBegin(0, 20); uRemove(20, 0, 21); return true;
+		case 9: if (!any) return false; hFindKey(0, k1, 20); uRemoveValues(20, 0, 21); return true;
+		case 10: if (!any) return false; hFindKey(0, k0, 20); uRemoveValues(20, 0, 21); return true;   // key without values: value version moves, nothing changes
+		case 11: if (!any) return false; hFindKey(0, k1, 20); uRemoveKey(20, 0, 21); return true;
+		case 12: if (!any) return false; hFindKey(0, k0, 20); uRemoveKey(20, 0, 21); return true;
+		case 13: if (!any) return false; mRemoveKeyByKey(0, k1); return true;
+		case 14: mRemoveKeyByKey(0, 97); return true;
+		case 15: mRemoveIf(0, 2, 0); return true;
+		case 16: mRemoveIf(0, 100000, 99999); return true;
+		case 17: {   // ResetKey of a key other than the one the handle under test points at
+			if (!any) return false;
+			std::vector<uint32_t> cand = st == 2 ? std::vector<uint32_t>{ 6, 5 } : std::vector<uint32_t>{ 55, 10, 20 };
+			uint32_t mineK = (!ks.empty() && ks[0].kind == K_ELEM) ? ks[0].key : 0xFFFFFFFFu;
+			uint32_t mineV = (!vs.empty() && vs[0].kind == V_ELEM) ? vs[0].key : 0xFFFFFFFFu;
+			for (uint32_t k : cand) if (k != mineK && k != mineV) { hFindKey(0, k, 20); uResetKey(20, 0); return true; }
+			return false; }
+		case 18: mClear(0); return true;
+		case 19: mSwap(); return true;
+		case 20: mSwap(); mSwap(); return true;
+		case 21: (void)O(0).ContainsKey(5); hFindKey(0, 30, 22); hBegin(0, 23); return true;   // const entry points only
+		case 22: mAdd(1, 98, 1, 31); return true;                                           // the OTHER container
+		case 23: mClear(1); return true;
+		case 24: for (uint32_t i = 0; i < 12; ++i) mInsertKey(0, 200 + i, 31); return true;   // growth of the nested map
+		default: if (!any) return false; for (uint32_t i = 0; i < 10; ++i) mAdd(0, k1, 5000 + i, 31); return true;   // growth of one value array
+		}
+	}
+	void applyUse(int u, bool valueHandle) {
+		if (!valueHandle) {
+			switch (u) {
+			case 0: uKDeref(0); break;
+			case 1: uKInc(0, 40); break;
+			case 2: uAddAt(0, 0, 777, 40); break;
+			case 3: uAddKey(0, 0, 77, 40); break;
+			case 4: uRemoveAt(0, 0, 0, 40); break;
+			case 5: uRemoveAt(0, 0, 50, 40); break;               // out-of-range value index
+			case 6: uRemoveValues(0, 0, 40); break;
+			case 7: uRemoveKey(0, 0, 40); break;
+			case 8: uResetKey(0, 0); break;
+			case 9: uMakeIt(0, 0, 0, 40); break;
+			case 10: uMakeIt(0, 0, 1, 40); break;
+			case 11: uMakeIt(0, 0, 60, 40); break;                // out-of-range value index
+			case 12: uCheckK(0, 0, true); break;
+			case 13: uCheckK(0, 0, false); break;
+			case 14: uCheckK(0, 1, false); break;
+			case 15: uAddAt(0, 1, 778, 40); break;                // used with B
+			case 16: uRemoveKey(0, 1, 40); break;
+			default: break;
+			}
+		} else {
+			switch (u) {
+			case 0: uVDeref(0); break;
+			case 1: uVInc(0, 40); break;
+			case 2: uRemove(0, 0, 40); break;
+			case 3: uMakeMutable(0, 0, 40); break;
+			case 4: uCheckV(0, 0, true); break;
+			case 5: uCheckV(0, 0, false); break;
+			case 6: uCheckV(0, 1, true); break;
+			case 7: uRemove(0, 1, 40); break;
+			case 8: uMakeMutable(0, 1, 40); break;
+			default: break;
+			}
+		}
+	}
+	void enumerate(bool) {
+		for (int st = 0; st < NSTATE; ++st)
+			for (int op = 0; op < NOP; ++op)
+				for (int hk = 0; hk < NHANDLE; ++hk)
+					for (int u = 0; u < (hk < 5 ? 17 : 9); ++u) {
+						build(st);
+						if (!makeHandle(hk, st)) continue;
+						if (!applyOp(op, st)) continue;
+						applyUse(u, hk >= 5);
+						c.stats.count("triples executed");
+					}
+	}
+	void randomHistory(int steps) {
+		newScenario();
+		int n = 5;
+		for (int d = 0; d <= n; ++d) { hFindKey(0, 999, d); hEnd(0, d); }
+		for (int i = 0; i < steps; ++i) {
+			int o = (int)rng.below(2), d = (int)rng.below(n), h = (int)rng.below(n);
+			uint32_t k = (uint32_t)rng.below(8), v = (uint32_t)rng.below(50);
+			switch (rng.below(24)) {
+			case 0: case 1: case 2: mAdd(o, k, v, d); break;
+			case 3: mInsertKey(o, k, d); break;
+			case 4: hFindKey(o, k, d); break;
+			case 5: hKeyBegin(o, d); break;
+			case 6: hBegin(o, d); break;
+			case 7: mRemoveKeyByKey(o, k); break;
+			case 8: if (rng.below(4) == 0) mClear(o); break;
+			case 9: if (rng.below(3) == 0) mSwap(); break;
+			case 10: uKDeref(h); break;
+			case 11: uKInc(h, d); break;
+			case 12: uVDeref(h); break;
+			case 13: uVInc(h, d); break;
+			case 14: uAddAt(h, o, v, d); break;
+			case 15: uRemoveAt(h, o, rng.below(4), d); break;
+			case 16: uRemove(h, o, d); break;
+			case 17: uRemoveValues(h, o, d); break;
+			case 18: uRemoveKey(h, o, d); break;
+			case 19: uMakeIt(h, o, rng.below(4), d); break;
+			case 20: uCheckV(h, o, rng.below(2)); break;
+			case 21: uCheckK(h, o, rng.below(2)); break;
+			case 22: { hFindKey(o, 100 + k, n); if (ks[n].kind == K_EMPTY) uAddKey(n, o, 100 + k, d); break; }
+			default: mRemoveIf(o, 5, (uint32_t)rng.below(5)); break;
+			}
+		}
+		c.stats.count("random histories");
+	}
+};
+
+template<typename Traits>
+static void runMulti(Ctx& c, Rng& rng, const std::string& suite, const std::string& cfg) {
+	MultiRun<Traits> r(c, rng, suite, cfg);
+	r.enumerate(c.thorough);
+	int n = c.thorough ? 500 : 80;
+	for (int i = 0; i < n; ++i) r.randomHistory(c.thorough ? 160 : 80);
+}
+#endif
+
+// ============================================================================================================
+#if VF_PART == 4
+// ---------------------------------------------------------------- Array with index iterators, SegmentedArray
+
+template<size_t tInternal>
+struct XArr : public momo::ArraySettings<tInternal, true, false> { static const momo::CheckMode checkMode = momo::CheckMode::exception; };
+template<momo::SegmentedArrayItemCountFunc tFunc, size_t tLog>
+struct XSeg : public momo::SegmentedArraySettings<tFunc, tLog> { static const momo::CheckMode checkMode = momo::CheckMode::exception; };
+
+template<typename ArrA, typename ArrB>
+struct ArrRun {
+	Ctx& c; Rng& rng; Suite s; Judge j;
+	std::unique_ptr<ArrA> a; std::unique_ptr<ArrB> b;
+	std::vector<uint32_t> ref[2];                     // reference contents
+	struct Slot { int arr = -1; size_t idx = 0; typename ArrA::ConstIterator ia; typename ArrB::ConstIterator ib; };
+	std::vector<Slot> slots;
+	static const size_t SMAX = ~size_t{0};
+
+	ArrRun(Ctx& c_, Rng& r, const std::string& suite, const std::string& cfg)
+		: c(c_), rng(r), s(c_, suite, "model ver fam=arr segA=0 segB=1"), j(c_, s, cfg) {}
+	static char on(int o) { return o ? 'B' : 'A'; }
+	template<typename A> static std::vector<uint32_t> items(A& x) { std::vector<uint32_t> v; for (size_t i = 0; i < x.GetCount(); ++i) v.push_back(x[i]); return v; }
+	std::string tail() { return " | A=" + listStr(items(*a)) + " B=" + listStr(items(*b)); }
+	void newScenario() { a.reset(new ArrA()); b.reset(new ArrB()); ref[0].clear(); ref[1].clear(); slots.clear(); j.begin(); j.line("new", "ok" + tail()); }
+	bool same() { return items(*a) == ref[0] && items(*b) == ref[1]; }
+	// one index-checked call: `valid` is the harness's own verdict, `apply` the reference effect
+	void call(int o, const std::string& opline, bool valid, const std::string& why, std::function<std::string()> fa, std::function<std::string()> fb, std::function<void(std::vector<uint32_t>&)> apply) {
+		std::string res;
+		std::string ex = guard([&] { res = o ? fb() : fa(); });
+		if (ex.empty()) apply(ref[o]);
+		j.line(opline, (ex.empty() ? res : ex) + tail());
+		j.judge(valid ? -1 : 1, ex, same(), opline, why, o ? "SegmentedArray" : "Array");
+		if (!same()) c.fail("C15 %s: contents differ from the reference after %s; history: %s", j.cfg.c_str(), opline.c_str(), j.scen.c_str());
+	}
+	void addBack(int o, uint32_t v) { if (o) b->AddBack(v); else a->AddBack(v); ref[o].push_back(v); j.line(fmt("addb %c %u", on(o), v), "ok" + tail()); }
+	void at(int o, size_t i) {
+		call(o, fmt("at %c %zu", on(o), i), i < ref[o].size(), "out-of-range index",
+			[&] { return "ok " + std::to_string((*a)[i]); }, [&] { return "ok " + std::to_string((*b)[i]); }, [](std::vector<uint32_t>&) {});
+	}
+	void back(int o) {
+		call(o, fmt("back %c", on(o)), !ref[o].empty(), "GetBackItem of an empty array",
+			[&] { return "ok " + std::to_string(a->GetBackItem()); }, [&] { return "ok " + std::to_string(b->GetBackItem()); }, [](std::vector<uint32_t>&) {});
+	}
+	void insert(int o, size_t i, size_t n, uint32_t v) {
+		j.mut("Insert(index, count, item)");
+		call(o, fmt("ins %c %zu %zu %u", on(o), i, n, v), i <= ref[o].size(), "out-of-range index",
+			[&] { if (n == 1 && rng.below(2)) a->Insert(i, v); else a->Insert(i, n, v); return std::string("ok"); },
+			[&] { if (n == 1 && rng.below(2)) b->Insert(i, v); else b->Insert(i, n, v); return std::string("ok"); },
+			[&](std::vector<uint32_t>& r) { r.insert(r.begin() + i, n, v); });
+	}
+	void remove(int o, size_t i, size_t n) {
+		j.mut("Remove(index, count)");
+		bool valid = i <= ref[o].size() && n <= ref[o].size() - i;
+		call(o, fmt("rm %c %zu %zu", on(o), i, n), valid, "out-of-range index / count",
+			[&] { a->Remove(i, n); return std::string("ok"); }, [&] { b->Remove(i, n); return std::string("ok"); },
+			[&](std::vector<uint32_t>& r) { r.erase(r.begin() + i, r.begin() + i + n); });
+	}
+	void removeBack(int o, size_t n) {
+		j.mut("RemoveBack(count)");
+		call(o, fmt("rmb %c %zu", on(o), n), n <= ref[o].size(), "out-of-range count",
+			[&] { a->RemoveBack(n); return std::string("ok"); }, [&] { b->RemoveBack(n); return std::string("ok"); },
+			[&](std::vector<uint32_t>& r) { r.resize(r.size() - n); });
+	}
+	void clear(int o) { if (o) b->Clear(); else a->Clear(); ref[o].clear(); j.mut("Clear"); j.line(fmt("clear %c", on(o)), "ok" + tail()); }
+
+	// ---- index iterators
+	Slot& slot(int d) { if ((int)slots.size() <= d) slots.resize(d + 1); return slots[d]; }
+	static std::string idesc(const Slot& sl) { return sl.arr < 0 ? "null" : "i" + std::to_string(sl.idx); }
+	void hBegin(int o, int d) { Slot& sl = slot(d); sl.arr = o; sl.idx = 0; if (o) sl.ib = static_cast<const ArrB&>(*b).GetBegin(); else sl.ia = static_cast<const ArrA&>(*a).GetBegin(); j.line(fmt("begin %c %d", on(o), d), "ok i0" + tail()); }
+	void hEnd(int o, int d) { Slot& sl = slot(d); sl.arr = o; sl.idx = ref[o].size(); if (o) sl.ib = static_cast<const ArrB&>(*b).GetEnd(); else sl.ia = static_cast<const ArrA&>(*a).GetEnd(); j.line(fmt("end %c %d", on(o), d), "ok " + idesc(sl) + tail()); }
+	void hNull(int d, int typeOf) { Slot& sl = slot(d); sl.arr = -1 - typeOf; sl.idx = 0; sl.ia = typename ArrA::ConstIterator(); sl.ib = typename ArrB::ConstIterator(); j.line(fmt("nullit %d", d), "ok null" + tail()); }
+	static bool isB(const Slot& sl) { return sl.arr == 1 || sl.arr == -2; }
+	void itAdd(int h, long long dd, int d) {
+		Slot sl = slot(h);
+		bool live = sl.arr >= 0;
+		bool valid = live ? ((long long)sl.idx + dd >= 0 && (size_t)((long long)sl.idx + dd) <= ref[sl.arr].size()) : dd == 0;
+		Slot r = sl;
+		std::string ex = guard([&] { if (isB(sl)) { r.ib += (ptrdiff_t)dd; } else { r.ia += (ptrdiff_t)dd; } });
+		if (ex.empty()) { r.idx = (size_t)((long long)sl.idx + dd); slot(d) = r; }
+		std::string opline = fmt("itadd %d %lld %d", h, dd, d);
+		j.line(opline, (ex.empty() ? "ok " + std::string(r.arr < 0 ? "null" : "i" + std::to_string(r.idx)) : ex) + tail());
+		j.judge(valid ? -1 : 1, ex, same(), opline, live ? "iterator moved outside [begin, end]" : "null iterator moved", live ? (isB(sl) ? "SegmentedArray iterator" : "Array iterator") : "null iterator");
+	}
+	void itPair(int x, int y, bool lt) {
+		Slot sx = slot(x), sy = slot(y);
+		if (isB(sx) != isB(sy)) return;                     // different iterator types do not compile
+		bool valid = sx.arr == sy.arr || (sx.arr < 0 && sy.arr < 0);
+		std::string res;
+		std::string ex = guard([&] {
+			if (lt) { bool r = isB(sx) ? (sx.ib < sy.ib) : (sx.ia < sy.ia); res = fmt("ok %d", (int)r); }
+			else { ptrdiff_t r = isB(sx) ? (sx.ib - sy.ib) : (sx.ia - sy.ia); res = fmt("ok %lld", (long long)r); } });
+		std::string opline = fmt("%s %d %d", lt ? "itlt" : "itsub", x, y);
+		j.line(opline, (ex.empty() ? res : ex) + tail());
+		j.judge(valid ? -1 : 1, ex, same(), opline, "iterators of different arrays", "iterator pair");
+	}
+	void itDeref(int h) {
+		Slot sl = slot(h);
+		// Array: operator-> returns GetItems() + index without a range check (only called here with index <= count)
+		bool valid = sl.arr >= 0 && (!isB(sl) || sl.idx < ref[sl.arr].size());
+		std::string ex = guard([&] { if (isB(sl)) (void)sl.ib.operator->(); else (void)sl.ia.operator->(); });
+		std::string opline = fmt("itd %d", h);
+		j.line(opline, (ex.empty() ? "ok i" + std::to_string(sl.idx) : ex) + tail());
+		j.judge(valid ? -1 : 1, ex, same(), opline, sl.arr < 0 ? "null iterator dereferenced" : "end iterator dereferenced", sl.arr < 0 ? "null iterator" : (isB(sl) ? "SegmentedArray iterator" : "Array iterator"));
+	}
+
+	void run(bool thorough) {
+		std::vector<size_t> big = { SMAX, SMAX - 1, SMAX - 2, SMAX / 2, SMAX / 2 + 1, (size_t)1 << 32 };
+		for (size_t n = 0; n <= (thorough ? 9u : 6u); ++n)
+			for (int o = 0; o < 2; ++o) {
+				auto fill = [&] { newScenario(); for (size_t i = 0; i < n; ++i) addBack(o, (uint32_t)(10 + i)); addBack(1 - o, 7); };
+				// index-checked entry points: every index / count around the size plus huge values
+				std::vector<size_t> idx; for (size_t i = 0; i <= n + 2; ++i) idx.push_back(i); for (size_t x : big) idx.push_back(x);
+				for (size_t i : idx) {
+					fill(); at(o, i);
+					fill(); insert(o, i, 1, 99); fill(); insert(o, i, 0, 99); fill(); insert(o, i, 3, 98);
+					fill(); removeBack(o, i);
+					for (size_t k : idx) { fill(); remove(o, i, k); c.stats.count("Remove(index, count) pairs"); }
+				}
+				fill(); back(o);
+				// iterators
+				for (long long dd = -(long long)n - 2; dd <= (long long)n + 2; ++dd)
+					for (size_t start = 0; start <= n; ++start) {
+						fill(); hBegin(o, 0); itAdd(0, (long long)start, 1); itAdd(1, dd, 2);
+						if (slot(2).arr >= 0 && slot(1).idx + dd == slot(2).idx) itDeref(2);
+					}
+				for (long long dd : { (long long)0x7FFFFFFFFFFFFFFFll, (long long)(-0x7FFFFFFFFFFFFFFFll - 1), 1ll << 40, -(1ll << 40) }) { fill(); hEnd(o, 0); itAdd(0, dd, 1); }
+				fill(); hNull(0, o); itAdd(0, 0, 1); itAdd(0, 1, 1); itAdd(0, -1, 1); itDeref(0); hNull(1, o); itPair(0, 1, false); itPair(0, 1, true);
+				fill(); hBegin(o, 0); hEnd(o, 1); itPair(0, 1, false); itPair(1, 0, true); hNull(2, o); itPair(0, 2, false); itPair(2, 1, true); itDeref(1); itDeref(0);
+				// an iterator made before the array shrinks keeps its index: moving checks against the current count
+				fill(); hEnd(o, 0); if (n >= 2) { removeBack(o, 2); itAdd(0, 0, 1); itAdd(0, -1, 1); itAdd(0, -2, 1); if (o) itDeref(0); }
+				fill(); hBegin(o, 0); clear(o); itAdd(0, 0, 1); itAdd(0, 1, 1); if (o) itDeref(0);
+			}
+		// two arrays of the same type: iterators of different containers (needs a second object of each type)
+		{
+			newScenario();
+			ArrA a2; a2.AddBack(1); auto x = static_cast<const ArrA&>(*a).GetBegin(); auto y = static_cast<const ArrA&>(a2).GetBegin();
+			std::string e1 = guard([&] { (void)(x - y); }), e2 = guard([&] { (void)(x < y); });
+			if (e1 != BAD || e2 != BAD) c.fail("C15 %s: difference / comparison of iterators of two Array objects not rejected", j.cfg.c_str());
+			ArrB b2; b2.AddBack(1); auto p = static_cast<const ArrB&>(*b).GetBegin(); auto q = static_cast<const ArrB&>(b2).GetBegin();
+			std::string e3 = guard([&] { (void)(p - q); }), e4 = guard([&] { (void)(p < q); });
+			if (e3 != BAD || e4 != BAD) c.fail("C15 %s: difference / comparison of iterators of two SegmentedArray objects not rejected", j.cfg.c_str());
+			c.stats.evaluations += 4; c.stats.count("must reject: iterators of two objects of the same type", 4);
+		}
+		// random histories
+		int hist = thorough ? 400 : 60;
+		for (int t = 0; t < hist; ++t) {
+			newScenario(); hBegin(0, 0); hBegin(1, 1); hNull(2, 0);
+			for (int i = 0; i < 80; ++i) {
+				int o = (int)rng.below(2); size_t n = ref[o].size();
+				size_t any = rng.below(5) == 0 ? big[rng.below(big.size())] : rng.below(n + 3);
+				switch (rng.below(11)) {
+				case 0: case 1: addBack(o, (uint32_t)rng.below(100)); break;
+				case 2: at(o, any); break;
+				case 3: insert(o, any, rng.below(3), (uint32_t)rng.below(100)); break;
+				case 4: remove(o, any, rng.below(4) == 0 ? big[rng.below(big.size())] : rng.below(n + 2)); break;
+				case 5: removeBack(o, any); break;
+				case 6: back(o); break;
+				case 7: itAdd((int)rng.below(3), (long long)rng.below(2 * n + 3) - (long long)n - 1, (int)rng.below(2) + 3); break;
+				case 8: { int h = (int)rng.below(5); if (h < (int)slots.size() && (slot(h).arr < 0 || slot(h).idx <= ref[slot(h).arr].size())) itDeref(h); break; }
+				case 9: if (o) hEnd(1, 1); else hEnd(0, 0); break;
+				default: if (rng.below(6) == 0) clear(o); break;
+				}
+			}
+			c.stats.count("random histories");
+		}
+	}
+};
+#endif
+
 int main(int argc, char** argv) {
 	Ctx c = parseArgs(argc, argv);
 	Rng rng(c.seed * 0x1000 + 15 + VF_PART * 0x100);
@@ -620,6 +1756,23 @@ int main(int argc, char** argv) {
 #elif VF_PART == 1
 	runHash<MapAd<ModTraits<momo::HashBucketDefault, true>>>(c, rng, "map_default", "HashMap<default bucket>");
 	runHash<MapAd<ModTraits<momo::HashBucketOpenN1<>, true>>>(c, rng, "map_openn1", "HashMap<OpenN1>");
+#elif VF_PART == 2
+	runTree<TSetAd<momo::TreeTraits<uint32_t, false>>>(c, rng, "tset_default", "TreeSet<default node>");
+	runTree<TSetAd<momo::TreeTraits<uint32_t, false, momo::TreeNode<4, 2>>>>(c, rng, "tset_small", "TreeSet<TreeNode<4,2>>");
+	runTree<TSetAd<momo::TreeTraits<uint32_t, true, momo::TreeNode<4, 1>>>>(c, rng, "tmultiset_small", "TreeMultiSet<TreeNode<4,1>>");
+	runTree<TMapAd<momo::TreeTraits<uint32_t, false, momo::TreeNode<6, 3>>>>(c, rng, "tmap_small", "TreeMap<TreeNode<6,3>>");
+#elif VF_PART == 3
+	runMulti<ModTraitsM<momo::HashBucketDefault>>(c, rng, "mmap_default", "HashMultiMap<default bucket>");
+	runMulti<ModTraitsM<momo::HashBucketOpen8>>(c, rng, "mmap_open8", "HashMultiMap<Open8>");
+#elif VF_PART == 4
+	{
+		typedef momo::Array<uint32_t, MM, momo::ArrayItemTraits<uint32_t, MM>, XArr<0>> A0;
+		typedef momo::Array<uint32_t, MM, momo::ArrayItemTraits<uint32_t, MM>, XArr<4>> A4;
+		typedef momo::SegmentedArray<uint32_t, MM, momo::SegmentedArrayItemTraits<uint32_t, MM>, XSeg<momo::SegmentedArrayItemCountFunc::sqrt, 1>> S1;
+		typedef momo::SegmentedArray<uint32_t, MM, momo::SegmentedArrayItemTraits<uint32_t, MM>, XSeg<momo::SegmentedArrayItemCountFunc::cnst, 2>> S2;
+		{ ArrRun<A0, S1> r(c, rng, "arr_heap_segsqrt", "Array<index iterators> / SegmentedArray<sqrt,1>"); r.run(c.thorough); }
+		{ ArrRun<A4, S2> r(c, rng, "arr_internal4_segcnst", "Array<internal capacity 4> / SegmentedArray<cnst,2>"); r.run(c.thorough); }
+	}
 #endif
 	return c.finish();
 }
